@@ -13,6 +13,7 @@
 //	                 net.DialTimeout("tcp", a, d) -> vnet.DialTimeout(net.DialTimeout, "tcp", a, d)
 //	swap:P=S         import "P" -> import P "<shimroot>/S"  (package S re-exports what is used)
 //	select           select{...} -> switch over vsel.Wait(...), bodies untouched
+//	call:P.F=V       every call P.F(...) -> V(...)  (V: package-level variable declared by a seam file)
 //	yield            vsel.Yield("file:line") after every statement that can wake another goroutine
 //	                 (close(ch), ch <- v, go f(), x.Unlock(), x.RUnlock(), x.Done(), x.Signal(),
 //	                 x.Broadcast(), x.Close(..), receives, the chosen case of a select) and inside `defer close(ch)`:
@@ -107,6 +108,17 @@ func rewriteFile(src, dst string, transforms []string) error {
 			if !swapImport(f, kv[0], shimRoot+kv[1]) {
 				return fmt.Errorf("transform %s: import %q not found", tr, kv[0])
 			}
+		case strings.HasPrefix(tr, "call:"):
+			// call:pkg.Func=ident  every call pkg.Func(...) becomes ident(...); ident is a package-level
+			// variable a seam file (add_files) declares in the same package, initialised to pkg.Func
+			kv := strings.SplitN(strings.TrimPrefix(tr, "call:"), "=", 2)
+			pf := strings.SplitN(kv[0], ".", 2)
+			if len(kv) != 2 || len(pf) != 2 || kv[1] == "" {
+				return fmt.Errorf("bad transform %q", tr)
+			}
+			if callTransform(f, pf[0], pf[1], kv[1]) == 0 {
+				return fmt.Errorf("transform %s: no call site found", tr)
+			}
 		case tr == "yield":
 			y := &yieldRewriter{fset: fset, file: filepath.Base(src)}
 			y.run(f)
@@ -180,6 +192,27 @@ func swapImport(f *ast.File, from, to string) bool {
 		}
 	}
 	return ok
+}
+
+// callTransform redirects calls of pkg.fn to the identifier to.
+func callTransform(f *ast.File, pkg, fn, to string) int {
+	n := 0
+	ast.Inspect(f, func(node ast.Node) bool {
+		call, ok := node.(*ast.CallExpr)
+		if !ok {
+			return true
+		}
+		sel, ok := call.Fun.(*ast.SelectorExpr)
+		if !ok || sel.Sel.Name != fn {
+			return true
+		}
+		if x, ok := sel.X.(*ast.Ident); ok && x.Name == pkg {
+			call.Fun = ast.NewIdent(to)
+			n++
+		}
+		return true
+	})
+	return n
 }
 
 func isTCPLit(e ast.Expr) bool {
